@@ -253,9 +253,17 @@ impl Scenario for Throttle {
                 v.push(json!({"bound": b, "high": hi, "low": lo, "stall": s, "grants": if tier == "thorough" { json!([1, 31, 33]) } else { json!([33]) }}));
             }
         }
+        // fine mode: publishers may refill their queues while the I/O thread is draining them
+        v.push(json!({"bound": 1, "high": 64, "low": 0, "stall": 260, "grants": [33], "fine": true}));
+        if tier == "thorough" {
+            v.push(json!({"bound": 2, "high": 64, "low": 32, "stall": 260, "grants": [33], "fine": true}));
+        }
         v
     }
     fn bound(&self, tier: &str, p: &Value) -> usize {
+        if p["fine"] == true {
+            return if tier == "thorough" { 2 } else { 1 };
+        }
         let key = p["bound"] == 1 && p["high"] == 64 && p["stall"] == 260;
         match (tier == "thorough", key) {
             (true, true) => 3,
@@ -272,6 +280,10 @@ impl Scenario for Throttle {
         let mut cfg = EnvConfig::default();
         cfg.stall_after = Some(p["stall"].as_u64().unwrap() as usize);
         cfg.grant_menu = p["grants"].as_array().unwrap().iter().map(|x| x.as_u64().unwrap() as usize).collect();
+        cfg.fine = p["fine"] == true;
+        if cfg.fine {
+            cfg.max_steps = 20000;
+        }
         let tuning = ConnectionTuning::default()
             .mem_channel_bound(p["bound"].as_u64().unwrap() as usize)
             .buffered_writes_high_water(p["high"].as_u64().unwrap() as usize)
